@@ -398,10 +398,24 @@ func TestVerifC09Udp(t *testing.T) {
 				w.push(fmt.Sprintf("d:%d:1:0:77", ids[0]))
 				stat.Inc(fmt.Sprintf("udp.flood.%d", k))
 				w.fwd(ids[0], r.Bool(), true)
-			case r.Chance(0.55):
+			case r.Chance(0.35):
 				w.push(c09GenUdpEv(r, ids, stat))
 			default:
-				w.fwd(ids[r.Intn(len(ids))], r.Chance(0.4), !r.Chance(0.07))
+				// one exchange: some stale events (late answers of earlier borrowers, noise), then usually the
+				// answer to this request, then the call
+				orig := ids[r.Intn(len(ids))]
+				for k := r.Intn(4); k > 0; k-- {
+					w.push(c09GenUdpEv(r, ids, stat))
+				}
+				if r.Chance(0.7) {
+					w.push(fmt.Sprintf("d:%d:%d:%s:%d", orig, r.Intn(4), c09B(r.Chance(0.1)), 1+r.Intn(500)))
+					stat.Inc("udp.ev.answer")
+					if r.Chance(0.15) { // answered twice
+						w.push(fmt.Sprintf("d:%d:%d:0:%d", orig, r.Intn(4), 1+r.Intn(500)))
+						stat.Inc("udp.ev.duplicate")
+					}
+				}
+				w.fwd(orig, r.Chance(0.4), !r.Chance(0.05))
 			}
 		}
 	}
@@ -831,7 +845,8 @@ func (w *c09CtlWorld) outcome(c *c09Client) string {
 		switch {
 		case errors.Is(c.err, ErrDNSTruncated):
 			return "error:truncated"
-		case errors.Is(c.err, ErrDNSResponseQuestionMismatch):
+		case strings.Contains(c.err.Error(), "does not answer the question asked"):
+			// ErrDNSResponseQuestionMismatch (by text: the harness must still build when b94e062 is reverted)
 			return "error:mismatch"
 		case strings.Contains(c.err.Error(), "DNS response expected"):
 			return "error:not-response"
